@@ -203,6 +203,50 @@ example (s : St) (h : runLog stepF (init 2) stalledLog2 = some s) (push d : Bool
   have hm := idle_of_map h (c := [2, 1]) (by decide)
   exact C17_deque_obstruction_free 2 stalledLog2 s h 0 (by decide) hm.1 push d v
 
+/-- **The bound the driver's solo monitor checks** (`soloBound push` = 19 for a push, 14 for a
+    pop, counting `inv` and `ret`): from every reachable state the whole solo operation is a log
+    of at most `soloBound push` events of `t`, first `inv`, last `ret`, and it answers `false`
+    exactly for a pop on the deque that was empty when the operation began. -/
+theorem C17_deque_solo_bound (n : Nat) (log : List Ev) (s : St)
+    (h : runLog stepF (init n) log = some s) (t : Nat) (ht : t < n) (hidle : s.pc t = .idle)
+    (push d : Bool) (v : Nat) :
+    ∃ (evs : List Ev) (ok : Bool) (r : Nat) (s' : St), evs.length ≤ soloBound push ∧
+      (∀ e ∈ evs, Ev.tid e = t) ∧ evs.head? = some (.inv t push d v) ∧
+      evs.getLast? = some (.ret t ok r) ∧ runLog stepF s evs = some s' ∧ s'.pc t = .idle ∧
+      (ok = false ↔ (push = false ∧ contents s = [])) := by
+  have key : ∀ (mid : List Ev) (ok : Bool) (r : Nat), mid.length + 2 ≤ soloBound push →
+      (∀ e ∈ mid, Ev.tid e = t) →
+      (Ev.inv t push d v :: mid ++ [Ev.ret t ok r]).length ≤ soloBound push ∧
+      (∀ e ∈ (Ev.inv t push d v :: mid ++ [Ev.ret t ok r]), Ev.tid e = t) ∧
+      (Ev.inv t push d v :: mid ++ [Ev.ret t ok r]).head? = some (.inv t push d v) ∧
+      (Ev.inv t push d v :: mid ++ [Ev.ret t ok r]).getLast? = some (.ret t ok r) := by
+    intro mid ok r hl hm
+    refine ⟨by simp; omega, ?_, rfl, ?_⟩
+    · intro e he
+      simp only [List.cons_append, List.mem_cons, List.mem_append] at he
+      rcases he with he | he | he | he
+      · rw [he]; rfl
+      · exact hm e he
+      · rw [he]; rfl
+      · cases he
+    · have : Ev.inv t push d v :: mid ++ [Ev.ret t ok r] = (Ev.inv t push d v :: mid) ++ [Ev.ret t ok r] := rfl
+      rw [this, List.getLast?_append]; simp
+  cases push
+  · by_cases he : contents s = []
+    · obtain ⟨s', h1, h2, _⟩ := C17_deque_solo_pop_empty n log s h t ht hidle d v he
+      obtain ⟨k1, k2, k3, k4⟩ := key [.ld t s.anchor] false 0 (by simp [soloBound]) (by simp [Ev.tid])
+      exact ⟨_, false, 0, s', k1, k2, k3, k4, h1, h2, by simp [he]⟩
+    · obtain ⟨mid, r, s', h1, h2, h3, h4, _⟩ :=
+        C17_deque_solo_pop_nonempty n log s h t ht hidle d v he
+      obtain ⟨k1, k2, k3, k4⟩ := key mid true r (by simp [soloBound]; omega) h2
+      exact ⟨_, true, r, s', k1, k2, k3, k4, h3, h4, by simp [he]⟩
+  · obtain ⟨mid, s', h1, h2, h3, h4, _⟩ := C17_deque_solo_push n log s h t ht hidle d v
+    obtain ⟨k1, k2, k3, k4⟩ := key mid true 0 (by simp [soloBound]; omega) h2
+    exact ⟨_, true, 0, s', k1, k2, k3, k4, h3, h4, by simp⟩
+
+/-- non-vacuity: both bounds are attained from `stalledLog` (14-event pop, 19-event push above) -/
+example : soloPopRight.length = soloBound false ∧ soloPushRight.length = soloBound true := by decide
+
 /-- **Back-end adapters, solo `pop(val, steal)`** (`lockfree_lifo_backend`,
     `lockfree_abp_fifo_backend`, `lockfree_abp_lifo_backend`; `steal = true` is the stealing
     variant): alone, the call returns within 14 events; on a non-empty deque it returns the element
